@@ -32,6 +32,14 @@ try:
         r = subprocess.run(["/venv/bin/python", "-B", demo], cwd=wt, env=env, capture_output=True, text=True, timeout=900)
         return r.returncode, (r.stdout + r.stderr)[-400:]
     res["demo_without"] = run_demo()[0]
+    base_fails = set()
+    if base != "HEAD":
+        # an older base may itself fail a check that was strengthened since (a defect repaired later): such a check says nothing about the change
+        for c in checks:
+            e2 = dict(os.environ, VERIF_REPO_SRC=f"{wt}/src", VERIF_REPLAY_DIR=f"{d}/replays")
+            r = subprocess.run(["/verif/check", c, "--tier", tier, "--no-evidence"], env=e2, capture_output=True, text=True)
+            if r.returncode != 0:
+                base_fails.add(c)
     ap = sh(f"git -C {wt} apply {sd}/patch.diff")
     res["patch_applies"] = ap.returncode == 0
     if not res["patch_applies"]:
@@ -42,6 +50,9 @@ try:
             t = subprocess.run("/venv/bin/python -m pytest -q -p no:cacheprovider --timeout=900 -q 2>&1 | tail -1", shell=True, cwd=wt, env=env, capture_output=True, text=True)
             res["suite"] = t.stdout.strip()
         for c in checks:
+            if c in base_fails:
+                res[f"check_{c}"] = {"rc": None, "verdict": "BASE-FAILS", "first": "the unpatched base commit already fails this check (defect repaired later)", "wall": 0}
+                continue
             t0 = time.time()
             e2 = dict(os.environ, VERIF_REPO_SRC=f"{wt}/src", VERIF_REPLAY_DIR=f"{d}/replays")
             r = subprocess.run(["/verif/check", c, "--tier", tier, "--no-evidence"], env=e2, capture_output=True, text=True)
